@@ -94,7 +94,7 @@ def main():
     for t in range(len(TARGETS)):
         sess += docs.build_sessions(sess_retyped, [a.seed * 1000003 + i for i in range(n)], target=t)
     sess += docs.build_sessions(sess_same_text_different_types, [a.seed * 1000003 + 77000000 + i for i in range(120 if quick else 2000)])
-    docs.validate_sessions(run, sess)
+    docs.validate_sessions(run, sess, relevant=docs.relevant_for(run.pid))
     for s in sess:
         if 'bar' in s['tags']:
             run.nontrivial.add(s['text'])
